@@ -11,7 +11,10 @@ import (
 	"encoding/json"
 	"fmt"
 	"io"
+	"os"
+	"path/filepath"
 	"runtime/debug"
+	"runtime/pprof"
 	"sort"
 	"strconv"
 	"strings"
@@ -86,8 +89,47 @@ func checkState(c *lib.Ctx, r *runResult) (vs []*viol) {
 	return vs
 }
 
+// ---- work distribution ----------------------------------------------------------
+
+// sharedDir is the directory all worker processes of one run write their
+// partial results to (the value of the runner's -out flag); units of work are
+// claimed there by exclusive file creation, so a fast worker takes more units.
+// Which worker executes a unit does not influence what the unit does.
+func sharedDir() string {
+	for i, a := range os.Args {
+		for _, pre := range []string{"-out=", "--out="} {
+			if strings.HasPrefix(a, pre) {
+				return filepath.Dir(strings.TrimPrefix(a, pre))
+			}
+		}
+		if (a == "-out" || a == "--out") && i+1 < len(os.Args) {
+			return filepath.Dir(os.Args[i+1])
+		}
+	}
+	return ""
+}
+
+var claimDir = sharedDir()
+
+func claim(c *lib.Ctx, phase string, unit int) bool {
+	if c.ShardN <= 1 || claimDir == "" {
+		return true
+	}
+	f, err := os.OpenFile(filepath.Join(claimDir, fmt.Sprintf("c07-claim-%s-%d", phase, unit)), os.O_CREATE|os.O_EXCL|os.O_WRONLY, 0o600)
+	if err != nil {
+		return false
+	}
+	_ = f.Close()
+	return true
+}
+
 // ---- phase A ------------------------------------------------------------------
 
+// samplesLeft: full histories put into the evidence file by this worker (the
+// BFS library only sees the part of a history after the unit's first operation).
+var samplesLeft = 4
+
+// observedStates holds the state keys already checked within the current unit.
 var observedStates = map[uint64]struct{}{}
 
 func report(c *lib.Ctx, v *viol, vc vcase) {
@@ -178,15 +220,21 @@ func phaseA(c *lib.Ctx, unit *int) {
 				if c.Expired() {
 					return
 				}
-				mine := c.Mine(*unit)
+				c.Distinct("phaseA_units", fmt.Sprintf("%d/%v/%s", pi, cf, first))
+				mine := claim(c, "A", *unit)
 				*unit++
 				if !mine {
 					continue
 				}
+				observedStates = map[uint64]struct{}{}
 				prefix := []op{first}
 				execOnce := func(h []op) (lib.Step, []*viol) {
 					full := append(append([]op{}, prefix...), h...)
 					st, vs, ee := execA(c, cf, full, false)
+					if samplesLeft > 0 && len(full) == ps.depth && st.NonTrivial {
+						samplesLeft--
+						c.Sample(map[string]any{"config": cf, "history": histString(full), "outcome": st.Outcome})
+					}
 					if ee != "" {
 						c.EngineError(ee)
 						return lib.Step{}, nil
@@ -228,6 +276,10 @@ func phaseA(c *lib.Ctx, unit *int) {
 					Exec: func(h []op) lib.Step { st, _ := execOnce(h); return st }}
 				b.Run()
 				c.ShardN, c.ShardI = sn, si
+				if !c.Expired() {
+					c.Count("phaseA_units_completed", 1)
+					c.Max("max_depth_full", int64(ps.depth))
+				}
 			}
 		}
 		c.Note(fmt.Sprintf("phaseA_pass%d", pi+1), fmt.Sprintf("depth %d over %d operations (record kinds %v + flush rotate clear restart enabled-toggle anonymize-toggle) x configs (mem_size,file) %v", ps.depth, len(ops), kindNames(ps.kinds), configs))
@@ -242,12 +294,74 @@ func kindNames(ks []int) []string {
 	return l
 }
 
+// ---- witness pre-pass -------------------------------------------------------------
+
+// prepass runs in the first worker only, before everything else: every history
+// up to depth 3 on the large-buffer configuration, shortest first, with the
+// state checks, and at depth <= 1 also the window product and the malformed
+// requests.  It adds no coverage beyond phases A and B; it makes the case that
+// is kept for a violation key the shortest one, because the runner keeps the
+// first case per key and prefers the first worker.
+func prepass(c *lib.Ctx) {
+	cf := cfg{100, true}
+	ops := alphabetA(passes(true)[0].kinds)
+	var level [][]op
+	level = append(level, nil)
+	for depth := 0; depth <= 3; depth++ {
+		var next [][]op
+		for _, h := range level {
+			if c.Expired() {
+				return
+			}
+			r, err := run(c.TmpDir, cf, h)
+			if err != nil {
+				c.EngineError(fmt.Sprintf("prepass %s: %v", histString(h), err))
+				if r.e != nil {
+					r.e.close()
+				}
+				return
+			}
+			c.Count("prepass_histories", 1)
+			if r.applicable && !r.corrupt {
+				base := vcase{Phase: "A", Cfg: cf, Hist: h}
+				for _, v := range checkState(c, &r) {
+					report(c, v, base)
+				}
+				if depth <= 1 {
+					var q int64
+					for _, lim := range limitsB {
+						for _, off := range offsetsB {
+							q++
+							if v, _ := checkQuery(r.e, r.m, request{Limit: lim, Offset: off}); v != nil {
+								report(c, v, base)
+							}
+						}
+					}
+					for _, rq := range malformedB {
+						q++
+						if v, _ := checkQuery(r.e, r.m, rq); v != nil {
+							report(c, v, base)
+						}
+					}
+					c.Count("queries", q)
+				}
+				for _, o := range ops {
+					next = append(next, append(append([]op{}, h...), o))
+				}
+			}
+			r.e.close()
+		}
+		level = next
+	}
+}
+
 // ---- phase B ------------------------------------------------------------------
 
 type layoutB struct {
 	Name string
 	Cfg  cfg
 	Hist []op
+	Full bool // full five-parameter product also in the quick tier
 }
 
 func recs(ks ...int) []op {
@@ -277,24 +391,24 @@ var (
 func layoutsB(quick bool) []layoutB {
 	big := cfg{100, true}
 	ls := []layoutB{
-		{"three-tiers-all-kinds", big, seq(recs(0, 1, 2, 3, 4), fl, rt, recs(5, 6, 7, 8, 9), fl, recs(10, 11, 12, 13))},
-		{"one-entry-per-tier", big, seq(recs(2), fl, rt, recs(11), fl, recs(1))},
-		{"memory+current", big, seq(recs(2, 1), fl, recs(11, 2))},
-		{"current+rotated", big, seq(recs(2, 11), fl, rt, recs(1, 2), fl)},
-		{"rotated+memory", big, seq(recs(2, 1), fl, rt, recs(11, 2))},
-		{"memory-only", big, recs(2, 11, 1)},
-		{"current-only", big, seq(recs(2, 11, 1), fl)},
-		{"rotated-only", big, seq(recs(2, 11, 1), fl, rt)},
-		{"anonymize-switched-on-later", big, seq(recs(2), an, recs(2), fl, rt, recs(7), an, recs(4), fl, an, recs(4, 0))},
-		{"anonymize-switched-off-again", big, seq(recs(2), an, recs(2, 4), fl, rt, recs(7), fl, recs(9), an, recs(2))},
-		{"mem-size-2-natural-flushes", cfg{2, true}, seq(recs(0, 2, 11, 1), rt, recs(7, 2, 4))},
-		{"memory-only-log", cfg{3, false}, recs(2, 11, 1, 7)},
-		{"disabled-interval+restart", big, seq(recs(2), fl, enb, recs(1, 11), enb, recs(7), rs, rt, recs(11), rs, recs(10))},
+		{"three-tiers-all-kinds", big, seq(recs(0, 1, 2, 3, 4), fl, rt, recs(5, 6, 7, 8, 9), fl, recs(10, 11, 12, 13)), false},
+		{"one-entry-per-tier", big, seq(recs(2), fl, rt, recs(11), fl, recs(1)), true},
+		{"memory+current", big, seq(recs(2, 1), fl, recs(11, 2)), true},
+		{"current+rotated", big, seq(recs(2, 11), fl, rt, recs(1, 2), fl), false},
+		{"rotated+memory", big, seq(recs(2, 1), fl, rt, recs(11, 2)), false},
+		{"memory-only", big, recs(2, 11, 1), false},
+		{"current-only", big, seq(recs(2, 11, 1), fl), false},
+		{"rotated-only", big, seq(recs(2, 11, 1), fl, rt), false},
+		{"anonymize-switched-on-later", big, seq(recs(2), an, recs(2), fl, rt, recs(7), an, recs(4), fl, an, recs(4, 0)), false},
+		{"anonymize-switched-off-again", big, seq(recs(2), an, recs(2, 4), fl, rt, recs(7), fl, recs(9), an, recs(2)), false},
+		{"mem-size-2-natural-flushes", cfg{2, true}, seq(recs(0, 2, 11, 1), rt, recs(7, 2, 4)), false},
+		{"memory-only-log", cfg{3, false}, recs(2, 11, 1, 7), false},
+		{"disabled-interval+restart", big, seq(recs(2), fl, enb, recs(1, 11), enb, recs(7), rs, rt, recs(11), rs, recs(10)), false},
 	}
 	if !quick {
 		ls = append(ls,
-			layoutB{"three-tiers-all-kinds-shifted", big, seq(recs(10, 11, 12, 13, 0), fl, rt, recs(1, 2, 3, 4), fl, recs(5, 6, 7, 8, 9))},
-			layoutB{"three-tiers-repeated-kinds", big, seq(recs(2, 2, 11, 2), fl, rt, recs(11, 2, 2), fl, recs(2, 11, 2))},
+			layoutB{"three-tiers-all-kinds-shifted", big, seq(recs(10, 11, 12, 13, 0), fl, rt, recs(1, 2, 3, 4), fl, recs(5, 6, 7, 8, 9)), true},
+			layoutB{"three-tiers-repeated-kinds", big, seq(recs(2, 2, 11, 2), fl, rt, recs(11, 2, 2), fl, recs(2, 11, 2)), true},
 		)
 	}
 	return ls
@@ -401,17 +515,68 @@ func phaseB(c *lib.Ctx, unit *int) {
 				c.Distinct("layouts_with_three_tiers", m.key())
 			}
 			// the whole state, as in phase A
-			if c.Mine(*unit) {
+			if claim(c, "B", *unit) {
 				for _, v := range checkState(c, &r) {
 					report(c, v, base)
 				}
 			}
 			*unit++
 			var q int64
-			// 1. the full product
+			defer func() { c.Count("queries", q) }()
+			// 1. the product of all five parameters
+			one := func(req request) {
+				q++
+				v, res := checkQuery(e, m, req)
+				if v != nil {
+					report(c, v, base)
+					return
+				}
+				if res.exact && len(res.times) > 0 && len(res.times) < len(m.alive()) {
+					c.Distinct("nontrivial", lb.Name+"|"+fmtTimes(res.times))
+				}
+				switch {
+				case res.status == 400:
+					c.Count("answers_400", 1)
+				case !res.exact:
+					c.Count("queries_with_older_than_not_from_the_api(soundness_only)", 1)
+				}
+			}
+			full := lb.Full || !c.Quick()
+			if full {
+				c.Distinct("layouts_with_full_product", lb.Name)
+			} else {
+				c.Distinct("layouts_with_reduced_product", lb.Name)
+			}
 			for _, ot := range olderThansB(m) {
+				if !full {
+					// quick tier, larger layouts: windows x cursor without
+					// filters, and filters x cursor under two windows
+					mine := claim(c, "B", *unit)
+					*unit++
+					if !mine {
+						continue
+					}
+					if c.Expired() {
+						return
+					}
+					for _, lim := range limitsB {
+						for _, off := range offsetsB {
+							one(request{Limit: lim, Offset: off, OlderThan: ot})
+						}
+					}
+					for _, tm := range terms {
+						for _, st := range statusesB() {
+							if tm.Term == "" && st == "" {
+								continue
+							}
+							one(request{OlderThan: ot, Search: tm.Term, Status: st})
+							one(request{Limit: "2", Offset: "1", OlderThan: ot, Search: tm.Term, Status: st})
+						}
+					}
+					continue
+				}
 				for _, tm := range terms {
-					mine := c.Mine(*unit)
+					mine := claim(c, "B", *unit)
 					*unit++
 					if !mine {
 						continue
@@ -422,22 +587,7 @@ func phaseB(c *lib.Ctx, unit *int) {
 					for _, st := range statusesB() {
 						for _, lim := range limitsB {
 							for _, off := range offsetsB {
-								req := request{Limit: lim, Offset: off, OlderThan: ot, Search: tm.Term, Status: st}
-								q++
-								v, res := checkQuery(e, m, req)
-								if v != nil {
-									report(c, v, base)
-									continue
-								}
-								if res.exact && len(res.times) > 0 && len(res.times) < len(m.alive()) {
-									c.Distinct("nontrivial", lb.Name+"|"+fmtTimes(res.times))
-								}
-								switch {
-								case res.status == 400:
-									c.Count("answers_400", 1)
-								case !res.exact:
-									c.Count("queries_with_older_than_not_from_the_api(soundness_only)", 1)
-								}
+								one(request{Limit: lim, Offset: off, OlderThan: ot, Search: tm.Term, Status: st})
 							}
 						}
 					}
@@ -445,7 +595,7 @@ func phaseB(c *lib.Ctx, unit *int) {
 			}
 			// 2. malformed and extreme values
 			for _, req := range malformedB {
-				mine := c.Mine(*unit)
+				mine := claim(c, "B", *unit)
 				*unit++
 				if !mine {
 					continue
@@ -458,7 +608,7 @@ func phaseB(c *lib.Ctx, unit *int) {
 			// 3. paging under every filter
 			for _, tm := range terms {
 				for _, st := range append([]string{""}, validStatuses...) {
-					mine := c.Mine(*unit)
+					mine := claim(c, "B", *unit)
 					*unit++
 					if !mine {
 						continue
@@ -478,7 +628,7 @@ func phaseB(c *lib.Ctx, unit *int) {
 			lay := e.observe()
 			lines := append(append(append([]string{}, lay.rot...), lay.cur...), lay.mem...)
 			for _, tm := range terms {
-				mine := c.Mine(*unit)
+				mine := claim(c, "B", *unit)
 				*unit++
 				if !mine {
 					continue
@@ -493,7 +643,6 @@ func phaseB(c *lib.Ctx, unit *int) {
 					}
 				}
 			}
-			c.Count("queries", q)
 		}()
 	}
 	c.Note("phaseB", fmt.Sprintf("%d layouts x older_than(absent, every entry, between neighbours, before first, after last, malformed) x %d search terms x %d statuses x %d limits x %d offsets; paging by cursor and by offset with limit 1,2,3 under every filter; %d malformed/extreme requests",
@@ -528,10 +677,36 @@ func setup() {
 func runAll(c *lib.Ctx) {
 	setup()
 	defer vtime.SetVirtual(time.Time{})
+	if pf := os.Getenv("C07_PROF"); pf != "" {
+		f, _ := os.Create(pf)
+		_ = pprof.StartCPUProfile(f)
+		defer pprof.StopCPUProfile()
+	}
 	unit := 0
-	phaseB(c, &unit)
+	only := os.Getenv("C07_PHASE") // development switch
+	start := time.Now()
+	if c.ShardI == 0 {
+		prepass(c)
+	}
+	// Phase A (the model-checking part) first, with at most 60 % of the
+	// budget, so that an overloaded machine still leaves time for phase B.
+	final := c.Deadline
+	if only == "" && !final.IsZero() {
+		c.Deadline = start.Add(final.Sub(start) * 6 / 10)
+	}
+	if only != "B" {
+		phaseA(c, &unit)
+	}
+	c.Deadline = final
+	ta := time.Since(start)
 	unit = 0
-	phaseA(c, &unit)
+	if only != "A" {
+		phaseB(c, &unit)
+	}
+	tb := time.Since(start) - ta
+	if os.Getenv("C07_TIMING") != "" {
+		c.Note(fmt.Sprintf("timing_shard%02d", c.ShardI), fmt.Sprintf("A %.1fs B %.1fs", ta.Seconds(), tb.Seconds()))
+	}
 }
 
 func replay(c *lib.Ctx, raw json.RawMessage) string {
@@ -588,7 +763,7 @@ func main() {
 			if tier == "thorough" {
 				return 18 * time.Minute
 			}
-			return 75 * time.Second
+			return 80 * time.Second
 		},
 		Run: runAll, Replay: replay,
 		Evidence: func(m *lib.Merged) map[string]any {
@@ -605,8 +780,13 @@ func main() {
 				"distinct_outcomes":             m.Distinct["outcomes"],
 				"layouts_phaseB":                m.Distinct["layouts"],
 				"layouts_with_three_tiers":      m.Distinct["layouts_with_three_tiers"],
+				"layouts_with_full_product":     m.Distinct["layouts_with_full_product"],
+				"layouts_with_reduced_product":  m.Distinct["layouts_with_reduced_product"],
 				"layout_differs_from_reference": m.Counters["layout_differs_from_reference"],
-				"max_depth":                     m.Maxes["max_depth"],
+				"max_depth":                     m.Maxes["max_depth_full"],
+				"phaseA_units":                  m.Distinct["phaseA_units"],
+				"phaseA_units_completed":        m.Counters["phaseA_units_completed"] + m.Counters["units_skipped_first_op_is_noop"],
+				"note_units":                    "phase A is dealt to workers as units (config, first operation); the bfs_* notes of the library are relative to a unit (history depth = note + 1); a unit whose first operation is a no-op on the empty log is skipped because [no-op]+h reaches what h reaches",
 				"rule": "phase A: BFS over histories of record(kind)/flush/rotate/clear/restart/enabled-toggle/anonymize-toggle on the real queryLog (fresh temp dir and virtual clock per history, records 1 s apart, the asynchronous flush is awaited after every operation); a state is (entry kinds and stored client address per tier, toggles, mem_size, file_enabled), absolute timestamps are not in the key (only their order influences the code, all stored lines have the same timestamp width); after every transition the unfiltered GET /control/querylog must equal reverse(rotated++current++memory) field by field, every stored line must survive decode+encode, and paging by cursor and by offset (limit 1,2[,3]) must partition the sequence. non-trivial (phase A) = transition that changes the stored layout or a toggle. phase B: full product of limit x offset x older_than x search x response_status on fixed layouts against an independent predicate; non-trivial (phase B) = distinct non-empty proper sub-sequence returned by an exactly-checked query",
 			}
 		},
